@@ -3550,6 +3550,153 @@ def text_value_preservation(ctx, S: Scope, e: ast.AST, depth=0) -> Tuple[Optiona
     return None, f"`{ast.unparse(e)[:60]}`"
 
 
+def _hist_time_mode(ctx, S: Scope, e, env: dict, depth=0) -> Optional[str]:
+    """What the time argument of a history read is under `env` = {dt: name, adapt: name, dt_none: bool, adapt_val: bool|None}:
+    't' (the function's t as it is) or 'scaled' (t times the step size); None = not understood."""
+    if depth > 8:
+        return None
+    if isinstance(e, str):
+        return "t" if e.strip() == "t" else ("scaled" if e.replace(" ", "").startswith("t*") else None)
+
+    def noneness(x, d=0):
+        x = merged_value(S, x) if isinstance(x, ast.Name) and x.id not in (env.get("dt"), env.get("adapt")) else x
+        if isinstance(x, ast.Constant):
+            return x.value is None
+        if isinstance(x, ast.Name) and x.id == env.get("dt"):
+            return env["dt_none"]
+        if isinstance(x, ast.IfExp) and d < 4:
+            tv = truth(x.test)
+            return None if tv is None else noneness(x.body if tv else x.orelse, d + 1)
+        return None
+
+    def truth(t_):
+        if isinstance(t_, ast.UnaryOp) and isinstance(t_.op, ast.Not):
+            r = truth(t_.operand)
+            return None if r is None else not r
+        if isinstance(t_, ast.BoolOp):
+            vals = [truth(v) for v in t_.values]
+            if isinstance(t_.op, ast.And):
+                return False if False in vals else (None if None in vals else True)
+            return True if True in vals else (None if None in vals else False)
+        if isinstance(t_, ast.Compare) and len(t_.ops) == 1 and isinstance(t_.comparators[0], ast.Constant) \
+                and t_.comparators[0].value is None and isinstance(t_.ops[0], (ast.Is, ast.IsNot, ast.Eq, ast.NotEq)):
+            nn = noneness(t_.left)
+            if nn is None:
+                return None
+            return nn if isinstance(t_.ops[0], (ast.Is, ast.Eq)) else not nn
+        if isinstance(t_, ast.Name) and t_.id == env.get("adapt"):
+            return env.get("adapt_val")
+        if isinstance(t_, ast.Name) and t_.id == env.get("dt"):
+            return not env["dt_none"]
+        return None
+    if isinstance(e, ast.Name) and e.id == "t":
+        return "t"
+    e = merged_value(S, e) if isinstance(e, ast.Name) else e
+    if isinstance(e, ast.Constant) and isinstance(e.value, str):
+        return _hist_time_mode(ctx, S, e.value, env, depth + 1)
+    if isinstance(e, ast.IfExp):
+        tv = truth(e.test)
+        return None if tv is None else _hist_time_mode(ctx, S, e.body if tv else e.orelse, env, depth + 1)
+    tt, hh = string_template(S, e) if isinstance(e, (ast.JoinedStr, ast.BinOp, ast.Call)) else (None, [])
+    if tt is not None and not (isinstance(e, ast.Call) and not isinstance(e.func, ast.Attribute)):
+        if isinstance(e, ast.Call) and not (isinstance(e.func, ast.Attribute) and e.func.attr == "format"):
+            tt = None
+    if tt is not None:
+        if tt.strip() == "t":
+            return "t"
+        if re.match(r"^\s*t\s*\*\s*⟨\d+⟩\s*$", tt) and any(isinstance(x, ast.Name) and x.id == env.get("dt") for h_ in hh for x in ast.walk(h_)):
+            return "scaled" if not env["dt_none"] else None
+        return None
+    if isinstance(e, ast.Call) and isinstance(e.func, ast.Attribute):
+        base = ctx.repo.get_class(BASE, "BaseBackend")
+        defs = [k.methods[e.func.attr] for k in [base] + list(ctx.repo.subclasses(base, strict=True)) if e.func.attr in k.methods]
+        if not defs:
+            return None
+        modes = set()
+        for g in defs:
+            ps = [p_ for p_ in g.params if p_ != g.self_name]
+            a = _call_args(e, ps, S)
+            Sg = Scope(ctx, g)
+            # which callee parameter carries the step size / the adaptive flag: by what the caller hands over
+            genv = {"dt": None, "adapt": None, "dt_none": True, "adapt_val": None}
+            for k_, v_ in a.items():
+                nn = noneness(v_)
+                if isinstance(v_, ast.Name) and v_.id == env.get("adapt"):
+                    genv["adapt"], genv["adapt_val"] = k_, env.get("adapt_val")
+                elif nn is not None and (isinstance(v_, ast.IfExp) or (isinstance(v_, ast.Name) and v_.id == env.get("dt"))
+                                         or isinstance(v_, ast.Constant)):
+                    if genv["dt"] is None:
+                        genv["dt"], genv["dt_none"] = k_, nn
+                elif any(isinstance(x, ast.Name) and x.id in (env.get("dt"), env.get("adapt")) for x in ast.walk(v_)):
+                    return None
+            if genv["dt"] is None:
+                # parameter not passed: its default
+                cand = [p_ for p_ in ps if p_ not in a]
+                if len(cand) >= 1:
+                    genv["dt"], genv["dt_none"] = cand[0], True
+
+            def run(stmts):
+                for st in stmts:
+                    if isinstance(st, ast.Expr) and isinstance(st.value, ast.Constant):
+                        continue
+                    if isinstance(st, ast.Return):
+                        return _hist_time_mode(ctx, Sg, st.value, genv, depth + 1) or "?"
+                    if isinstance(st, ast.If):
+                        saved = (env.get("dt"), env.get("adapt"), env["dt_none"], env.get("adapt_val"))
+                        env.update(dt=genv["dt"], adapt=genv["adapt"], dt_none=genv["dt_none"], adapt_val=genv["adapt_val"])
+                        tv = truth(st.test)
+                        env.update(dt=saved[0], adapt=saved[1], dt_none=saved[2], adapt_val=saved[3])
+                        if tv is None:
+                            return "?"
+                        r = run(st.body if tv else st.orelse)
+                        if r is not None:
+                            return r
+                        continue
+                    return "?"
+                return None
+            r = run(g.node.body)
+            modes.add(r)
+        if len(modes) == 1 and next(iter(modes)) in ("t", "scaled"):
+            return next(iter(modes))
+        return None
+    return None
+
+
+def _r11_time_argument(ctx, rid, f, S: Scope, sites):
+    """The time argument of the Jacobian's history reads may be the scaled step counter `t*dt` only in fixed-step mode (a step size is
+    given and the solver is not adaptive) - then the generated functions receive the step counter as `t`; for an adaptive solver
+    `t` already is the time (CircuitIR hands `dt` over for every solver, only `dt_adapt` tells the modes apart), so the read must
+    be `hist(t - tau)` like the run function's.  Evaluated for the four combinations of (dt given, dt_adapt)."""
+    ps = f.params
+    dtp = "dt" if "dt" in ps else None
+    adp = "dt_adapt" if "dt_adapt" in ps else None
+    for n, t, _hole, time_e in sites:
+        st = n
+        while not isinstance(st, ast.stmt):
+            st = parent(st)
+        shown = t.replace("⟨", "{").replace("⟩", "}")
+        label = "time argument of the history read"
+        table = {}
+        for dt_none in (True, False):
+            for adapt in (True, False):
+                env = {"dt": dtp, "adapt": adp, "dt_none": dt_none, "adapt_val": adapt}
+                table[(dt_none, adapt)] = _hist_time_mode(ctx, S, time_e, env)
+        facts = {"modes": {f"dt {'None' if k[0] else 'given'}, dt_adapt={k[1]}": v for k, v in table.items()}}
+        if any(v is None for v in table.values()):
+            raise AnalysisError(f"{rid}: `{shown}`: cannot evaluate the time argument `{ast.unparse(time_e) if not isinstance(time_e, str) else time_e}` "
+                                f"for every combination of (dt, dt_adapt): {facts['modes']}")
+        bad = [k for k, v in table.items() if v == "scaled" and (k[0] or k[1])]
+        if bad:
+            k = bad[0]
+            ctx.violation(rid, f, st, f"`{shown}`: with dt {'None' if k[0] else 'given'} and dt_adapt={k[1]} the Jacobian reads the history at "
+                                      f"`t*dt - tau`, but in that mode `t` already is the time (only a fixed-step solver hands the step "
+                                      f"counter over) and the run function reads `hist(t - tau)`: the Jacobian is evaluated at another "
+                                      f"delayed state than the vector field", facts, label=label)
+        else:
+            ctx.ok(rid, f, st, f"`{shown}`: the time argument is scaled by the step size only in fixed-step mode (dt given and not dt_adapt)",
+                   facts, label=label)
+
+
 def r11_delay_literal_is_the_delay(ctx, rid):
     """The generated Jacobian function reads the delayed state with `_yhist_<id> = hist(t - <delay>)`.  The text emitted as
     <delay> must denote the same number as the delay of the `past(x, tau)` terms that were grouped under it (and as the delay of
@@ -3560,11 +3707,13 @@ def r11_delay_literal_is_the_delay(ctx, rid):
     S = Scope(ctx, f)
     sites = []
     for n, t, h in templates_spliced(S, f.node):
-        m = re.search(r"hist\(\s*t\s*-\s*⟨(\d+)⟩\s*\)", t or "")
+        m = re.search(r"hist\(\s*(t(?:\s*\*\s*⟨\d+⟩)?|⟨\d+⟩)\s*-\s*⟨(\d+)⟩\s*\)", t or "")
         if m:
-            sites.append((n, t, h[int(m.group(1))]))
-    ctx.require(len(sites) >= 1, f"{rid}: no `hist(t - <delay>)` line found in get_jacobian_func")
-    for n, t, hole in sites:
+            tm = re.fullmatch(r"⟨(\d+)⟩", m.group(1))
+            sites.append((n, t, h[int(m.group(2))], h[int(tm.group(1))] if tm else m.group(1)))
+    ctx.require(len(sites) >= 1, f"{rid}: no `hist(<time> - <delay>)` line found in get_jacobian_func")
+    _r11_time_argument(ctx, rid, f, S, sites)
+    for n, t, hole, _time in sites:
         st = n
         while not isinstance(st, ast.stmt):
             st = parent(st)
@@ -3903,6 +4052,6 @@ RULES = [
     ("C12-R8", r8_placeholder_families_disjoint, 1),
     ("C12-R9", r9_jacobian_parameter_slots, 4),          # hand-over, zip pairing, dfdp(i,k), __PYR_ARG_k__
     ("C12-R10", r10_tables_are_distinct_objects, 1),     # the per-delay table J_hist
-    ("C12-R11", r11_delay_literal_is_the_delay, 1),      # the one hist(t - <delay>) line
+    ("C12-R11", r11_delay_literal_is_the_delay, 2),      # the one hist(t - <delay>) line
     ("C12-R12", r12_sparse_form_from_one_traversal, 0),  # today no direct sparse form exists (dense matrix wrapped by csr_matrix)
 ]
